@@ -16,6 +16,7 @@ from jax2onnx._compat.jax import (
     batching,
 )
 from numpy.typing import ArrayLike
+from jax2onnx.converter.ir_builder import _dtype_to_ir
 from jax2onnx.converter.typing_support import LoweringContextProtocol
 from jax2onnx.plugins._post_check_onnx_graph import expect_graph as EG
 from jax2onnx.plugins._ir_shapes import _ensure_value_metadata, _stamp_type_and_shape
@@ -323,6 +324,8 @@ class JnpEinsumPlugin(PrimitiveLeafPlugin):
         del _dot_general
         equation = _normalize_equation(equation)
         shape, dtype = _einsum_shape(avals, equation)
+        if preferred_element_type is not None:
+            dtype = np.dtype(preferred_element_type)
         return ShapedArray(shape, dtype)
 
     def lower(self, ctx: LoweringContextProtocol, eqn: JaxprEqn) -> None:
@@ -337,6 +340,25 @@ class JnpEinsumPlugin(PrimitiveLeafPlugin):
         out_spec = ctx.get_value_for_var(
             out_var, name_hint=ctx.fresh_name("einsum_out")
         )
+
+        # ONNX Einsum returns its operands' element type.  When JAX's result type
+        # differs (preferred_element_type=..., mixed operand dtypes) compute in the
+        # result type, as JAX does.
+        out_np_dtype = np.dtype(getattr(out_var.aval, "dtype", np.float32))
+        for i, var in enumerate(eqn.invars):
+            in_np_dtype = np.dtype(getattr(var.aval, "dtype", out_np_dtype))
+            if in_np_dtype == out_np_dtype:
+                continue
+            target_enum = _dtype_to_ir(out_np_dtype, ctx.builder.enable_double_precision)
+            cast_val = ctx.builder.Cast(
+                input_vals[i],
+                _outputs=[ctx.fresh_name("einsum_in_cast")],
+                to=int(target_enum.value),
+            )
+            cast_val.type = ir.TensorType(target_enum)
+            _stamp_type_and_shape(cast_val, tuple(getattr(var.aval, "shape", ())))
+            _ensure_value_metadata(ctx, cast_val)
+            input_vals[i] = cast_val
 
         lhs, rhs = equation.split("->")
         in_specs = lhs.split(",")
